@@ -21,4 +21,5 @@ INVARIANT RenameLands
 INVARIANT UnknownNamesAreReportedAndIgnored
 INVARIANT OthersUntouched
 INVARIANT CopiesStartEqual
+INVARIANT AdHocStaysWithTheCopy
 CHECK_DEADLOCK FALSE
